@@ -13,7 +13,8 @@ Local Open Scope N_scope.
    X-Forwarded-Proto and Forwarded headers ("" when absent), Upgrade is websocket/Websocket,
    r.TLS != nil, the ip of r.RemoteAddr *)
 Record inreq := { ir_host : str; ir_path : str; ir_query : str; ir_xfp : str; ir_fwd : str;
-                  ir_ws : bool; ir_tls : bool; ir_remote_ip : str; ir_proto : str }.
+                  ir_ws : bool; ir_tls : bool; ir_remote_ip : str; ir_proto : str;
+                  ir_method : str; ir_uri : str (* r.Method, r.RequestURI *) }.
 (* the route target: t.URL.Scheme/Host/RawQuery, t.Host, t.StripPath, t.PrependPath, t.Service *)
 Record ropt := { ro_scheme : str; ro_host : str; ro_query : str; ro_hostopt : str;
                  ro_strip : str; ro_prepend : str; ro_service : str }.
@@ -103,14 +104,31 @@ Definition serve_event_lazy (r : inreq) (o : ropt) : served :=
      sv_upstream_addr := ro_host o; sv_upstream_service := ro_service o;
      sv_upstream_url := target_url r o |}.
 
-(* specification: the request-side fields describe the request as received *)
 Definition urlparts_eqb (a b : urlparts) : bool :=
   beq (up_scheme a) (up_scheme b) && beq (up_host a) (up_host b)
   && beq (up_path a) (up_path b) && beq (up_query a) (up_query b).
-Definition request_side_as_received (r : inreq) (requrl : urlparts) (reqhost : str) : bool :=
-  urlparts_eqb requrl (request_url_at r (st_received r)) && beq reqhost (ir_host r).
 
-(* finding region 4 (F-C20-4): a host= route option that changes the Host header: Event.Request.Host
-   (rendered by $request_host) is then the rewritten host *)
-Definition region_host_rewritten (r : inreq) (o : ropt) : bool :=
-  negb (beq (rs_host (rewrite_host o (st_received r))) (ir_host r)).
+(* ---- the Event handed to the logger, as far as the request-side fields read it ----
+   [urlstr] is RequestURL.String() as net/url computes it from the four components (data) *)
+Definition urlinfo_of (u : urlparts) (urlstr : str) : urlinfo :=
+  {| u_scheme := up_scheme u; u_host := up_host u; u_rawquery := up_query u; u_requri := [];
+     u_string := urlstr |}.
+Definition event_of (r : inreq) (sv : served) (urlstr : str) : event :=
+  {| e_dur := 0; e_unix := 0; e_nsec := 0; e_off := 0;
+     e_req := Some {| rq_remote := []; rq_method := ir_method r; rq_uri := ir_uri r; rq_proto := ir_proto r;
+                      rq_host := sv_request_host sv; rq_header := None |};
+     e_resp := Some (200, 0)%Z;
+     e_requrl := Some (urlinfo_of (sv_request_url sv) urlstr);
+     e_upaddr := sv_upstream_addr sv; e_upsvc := sv_upstream_service sv; e_upurl := None |}.
+
+(* the request-side fields, and a format that holds every one of them *)
+Definition request_fields : list fld :=
+  [FRequest; FRequestArgs; FRequestHost; FRequestMethod; FRequestScheme; FRequestURI; FRequestURL; FRequestProto].
+Definition request_format : str :=
+  bs "$request|$request_args|$request_host|$request_method|$request_scheme|$request_uri|$request_url|$request_proto".
+
+(* specification: what a logger that saw only the request as received would write *)
+Definition received_event (r : inreq) (urlstr : str) : event :=
+  event_of r {| sv_request_url := request_url_at r (st_received r); sv_request_host := ir_host r;
+                sv_upstream_addr := []; sv_upstream_service := []; sv_upstream_url := request_url_at r (st_received r) |}
+           urlstr.
